@@ -279,6 +279,8 @@ func (g *Eng) Compile(s *Spec, e *Expr) *re {
 			panic("undefined macro " + e.Ref)
 		}
 		return g.Compile(s, m.E)
+	case "group":
+		return g.Compile(s, e.Kids[0])
 	case "seq":
 		r := g.eps
 		for i := len(e.Kids) - 1; i >= 0; i-- {
